@@ -801,7 +801,7 @@ Definition transpose_dict (v : val) : E (list dict) :=
 
 Definition nth_or {A} (l : list A) (i : nat) (dflt : A) : A := nth i l dflt.
 
-Definition h_datum_page (doc : val) : M unit :=
+Definition h_datum_page (mode : copy_mode) (doc : val) : M unit :=
   c <- deepcopy doc ;;
   d <- lift (as_dict c) ;;
   res <- lift (egetitem d "resource") ;;
@@ -809,7 +809,7 @@ Definition h_datum_page (doc : val) : M unit :=
   ids <- lift (v <~ egetitem d "datum_id" ;; as_list v) ;;
   let n := Nat.max (length ids) (length kws) in
   forM (seq 0 n) (fun i =>
-    h_datum_owned (VDict [("datum_id", nth_or ids i (VDict [])); ("datum_kwargs", VDict (nth_or kws i []));
+    h_datum mode (VDict [("datum_id", nth_or ids i (VDict [])); ("datum_kwargs", VDict (nth_or kws i []));
                           ("resource", res)])).
 
 Definition h_event_page (doc : val) : M unit :=
@@ -824,7 +824,7 @@ Definition h_event_page (doc : val) : M unit :=
   seqs <- lift (v <~ egetitem d "seq_num" ;; as_list v) ;;
   let n := fold_right Nat.max O [length uids; length times; length seqs; length datas; length tss; length fls] in
   forM (seq 0 n) (fun i =>
-    h_event_tree (VDict [("descriptor", desc); ("uid", nth_or uids i (VDict [])); ("time", nth_or times i (VDict []));
+    h_event (VDict [("descriptor", desc); ("uid", nth_or uids i (VDict [])); ("time", nth_or times i (VDict []));
                          ("seq_num", nth_or seqs i (VDict [])); ("data", VDict (nth_or datas i []));
                          ("timestamps", VDict (nth_or tss i [])); ("filled", VDict (nth_or fls i []))])).
 
@@ -838,7 +838,7 @@ Definition dispatch (mode : copy_mode) (name : string) (doc : val) : M unit :=
   else if String.eqb name "stream_resource" then h_stream_resource mode doc
   else if String.eqb name "stream_datum" then h_stream_datum doc
   else if String.eqb name "datum" then h_datum mode doc
-  else if String.eqb name "datum_page" then h_datum_page doc
+  else if String.eqb name "datum_page" then h_datum_page mode doc
   else fail AttributeError.
 
 (* the caller keeps feeding documents after an exception (as _ConditionalBackup does) *)
